@@ -87,6 +87,10 @@ def write_errors_to_yaml(container, yaml_doc):
         else:
             raise TypeError("No representation for error type {} " "implemented!".format(type(_err_obj)))
 
+        # -- a disabled error source stays disabled when read back
+        if not _err_dict.get("enabled", True):
+            _yaml_section[-1]["enabled"] = False
+
     return yaml_doc
 
 
@@ -180,6 +184,8 @@ def process_error_sources(container_obj, yaml_doc):
 
         # add error to data container
         container_obj = add_error_to_container(_err_type, container_obj, **_add_kwargs)
+        if not _err.get("enabled", True):
+            container_obj.disable_error(list(container_obj._error_dicts.keys())[-1])
 
     return container_obj, yaml_doc
 
